@@ -19,6 +19,9 @@ use egglog_numeric_id::NumericId;
 use smallvec::SmallVec;
 
 /// Tracks which dense numeric identifiers have been notified since the last reset.
+///
+/// Cloning a `NotificationList` yields another handle to the same list; use
+/// [`NotificationList::deep_copy`] for an independent list.
 #[derive(Clone)]
 pub struct NotificationList<K: NumericId> {
     inner: Arc<Inner<K>>,
@@ -33,6 +36,23 @@ impl<K: NumericId> Default for NotificationList<K> {
 }
 
 impl<K: NumericId> NotificationList<K> {
+    /// An independent list that starts with the same pending notifications: a `notify` or
+    /// `reset` on one of the two lists is not observed by the other.
+    pub fn deep_copy(&self) -> Self {
+        let notified = self.inner.notified.lock().unwrap().clone();
+        let states = ConcurrentVec::default();
+        for item in &notified {
+            states.resize_with(item.index() + 1, NotificationState::default);
+            states.read()[item.index()].attempt_notify();
+        }
+        Self {
+            inner: Arc::new(Inner {
+                notified: Mutex::new(notified),
+                states,
+            }),
+        }
+    }
+
     /// Notify a given item.
     ///
     /// It is expected that the space of `item`s is fairly dense: this implementation will use O(n)
